@@ -730,6 +730,153 @@ impl Bridge for Priority {
     }
 }
 
+/// two declarations of the same name in different modules (versioned modules are a common way to
+/// keep old definitions around): their metadata must not be confused
+pub mod dup_a {
+    use desert_macro::BinaryCodec;
+    #[derive(BinaryCodec)]
+    pub struct Item {
+        pub id: u32,
+        pub name: String,
+    }
+    #[derive(BinaryCodec)]
+    pub enum Kind {
+        One,
+        Two(u8),
+    }
+}
+pub mod dup_b {
+    use desert_macro::BinaryCodec;
+    #[derive(BinaryCodec)]
+    #[evolution(FieldAdded("extra", 7u8), FieldRemoved("old"))]
+    pub struct Item {
+        pub id: u32,
+        pub extra: u8,
+    }
+    #[derive(BinaryCodec)]
+    pub enum Kind {
+        #[evolution(FieldAdded("n", 1u16))]
+        One {
+            n: u16,
+        },
+        Two(u8),
+        Three,
+    }
+}
+impl Bridge for dup_a::Item {
+    fn ty() -> Ty {
+        Ty::Adt("dup_a::Item".into())
+    }
+    fn register(reg: &mut Registry) {
+        reg.insert(AdtDef::Record(RecordDef {
+            name: "dup_a::Item".into(),
+            option_aware: true,
+            steps: vec![],
+            fields: vec![field("id", Ty::U32), field("name", Ty::Str)],
+        }));
+    }
+    fn to_val(&self) -> Val {
+        Val::Record(vec![self.id.to_val(), self.name.to_val()])
+    }
+    fn from_val(v: &Val) -> Self {
+        let f = v.items();
+        dup_a::Item { id: Bridge::from_val(&f[0]), name: Bridge::from_val(&f[1]) }
+    }
+}
+impl Bridge for dup_b::Item {
+    fn ty() -> Ty {
+        Ty::Adt("dup_b::Item".into())
+    }
+    fn register(reg: &mut Registry) {
+        reg.insert(AdtDef::Record(RecordDef {
+            name: "dup_b::Item".into(),
+            option_aware: true,
+            steps: vec![Step::Added("extra".into()), Step::Removed("old".into())],
+            fields: vec![
+                field("id", Ty::U32),
+                FieldDef { name: "extra".into(), ty: Ty::U8, transient: None, default: Some(Val::U(7)) },
+            ],
+        }));
+    }
+    fn to_val(&self) -> Val {
+        Val::Record(vec![self.id.to_val(), self.extra.to_val()])
+    }
+    fn from_val(v: &Val) -> Self {
+        let f = v.items();
+        dup_b::Item { id: Bridge::from_val(&f[0]), extra: Bridge::from_val(&f[1]) }
+    }
+}
+impl Bridge for dup_a::Kind {
+    fn ty() -> Ty {
+        Ty::Adt("dup_a::Kind".into())
+    }
+    fn register(reg: &mut Registry) {
+        let ctor = |name: &str, fields: Vec<FieldDef>| CtorDef {
+            name: name.into(),
+            transient: false,
+            record: RecordDef { name: name.into(), option_aware: true, steps: vec![], fields },
+        };
+        reg.insert(AdtDef::Enum(EnumDef {
+            name: "dup_a::Kind".into(),
+            sorted: false,
+            ctors: vec![ctor("One", vec![]), ctor("Two", vec![field("field0", Ty::U8)])],
+        }));
+    }
+    fn to_val(&self) -> Val {
+        match self {
+            dup_a::Kind::One => Val::Enum(0, vec![]),
+            dup_a::Kind::Two(x) => Val::Enum(1, vec![x.to_val()]),
+        }
+    }
+    fn from_val(v: &Val) -> Self {
+        match v {
+            Val::Enum(0, _) => dup_a::Kind::One,
+            Val::Enum(1, f) => dup_a::Kind::Two(Bridge::from_val(&f[0])),
+            o => panic!("bridge: {o:?}"),
+        }
+    }
+}
+impl Bridge for dup_b::Kind {
+    fn ty() -> Ty {
+        Ty::Adt("dup_b::Kind".into())
+    }
+    fn register(reg: &mut Registry) {
+        let ctor = |name: &str, steps: Vec<Step>, fields: Vec<FieldDef>| CtorDef {
+            name: name.into(),
+            transient: false,
+            record: RecordDef { name: name.into(), option_aware: true, steps, fields },
+        };
+        reg.insert(AdtDef::Enum(EnumDef {
+            name: "dup_b::Kind".into(),
+            sorted: false,
+            ctors: vec![
+                ctor(
+                    "One",
+                    vec![Step::Added("n".into())],
+                    vec![FieldDef { name: "n".into(), ty: Ty::U16, transient: None, default: Some(Val::U(1)) }],
+                ),
+                ctor("Two", vec![], vec![field("field0", Ty::U8)]),
+                ctor("Three", vec![], vec![]),
+            ],
+        }));
+    }
+    fn to_val(&self) -> Val {
+        match self {
+            dup_b::Kind::One { n } => Val::Enum(0, vec![n.to_val()]),
+            dup_b::Kind::Two(x) => Val::Enum(1, vec![x.to_val()]),
+            dup_b::Kind::Three => Val::Enum(2, vec![]),
+        }
+    }
+    fn from_val(v: &Val) -> Self {
+        match v {
+            Val::Enum(0, f) => dup_b::Kind::One { n: Bridge::from_val(&f[0]) },
+            Val::Enum(1, f) => dup_b::Kind::Two(Bridge::from_val(&f[0])),
+            Val::Enum(2, _) => dup_b::Kind::Three,
+            o => panic!("bridge: {o:?}"),
+        }
+    }
+}
+
 /// a client codec that stores its bytes as a compressed frame
 pub struct Zipped(pub Vec<u8>);
 impl desert::BinarySerializer for Zipped {
@@ -904,6 +1051,7 @@ pub fn builtin_catalog() -> Catalog {
         Tagged, Vec<Tagged>, (Tagged, Dedup, Tagged), Tagged2, Vec<Tagged2>, (Tagged2, Tagged, Dedup),
         Priority, Vec<Priority>, (Priority, u8),
         [u16; 64], [i8; 127], [(); 65], [String; 70], [bool; 100], Vec<[u16; 64]>,
+        dup_a::Item, dup_b::Item, (dup_a::Item, dup_b::Item), dup_a::Kind, dup_b::Kind, Vec<dup_b::Kind>,
         Big200, Vec<Big200>, (Big200, u8), Zipped, (Zipped, String), Vec<Zipped>, Archive, Vec<Archive>, (Archive, u8),
         Fragile, (String, Fragile), Vec<Fragile>, Brittle, Vec<Brittle>, (Brittle, Point),
     ];
